@@ -244,7 +244,7 @@ func ruleOneResponse(c *Ctx) {
 	connF := p.FieldVar("service/wsp", "Session", "conn")
 	isDecode := func(ins ssa.Instruction) bool {
 		cc := callCommon(ins)
-		return cc != nil && cc.StaticCallee() != nil && cc.StaticCallee().Name() == "DecodeRequest"
+		return cc != nil && cc.StaticCallee() != nil && baseFuncName(cc.StaticCallee()) == "DecodeRequest"
 	}
 	isCtlWrite := func(ins ssa.Instruction) bool {
 		cc := callCommon(ins)
@@ -341,13 +341,13 @@ func ruleResponseCtor(c *Ctx) {
 				if call, ok := cc.Args[2].(*ssa.Call); ok && strings.HasSuffix(calleeName(&call.Call), "rtsp.Header).Get") {
 					if k2, ok := call.Call.Args[1].(*ssa.Const); ok && k2.Value != nil && constant.StringVal(k2.Value) == "CSeq" {
 						// the header must be the request's
-						if f, base, ok := fieldLoad(call.Call.Args[0]); ok && f.Name() == "Header" && origin(base) == ssa.Value(nr.Params[2]) {
+						if f, base, ok := fieldLoad(call.Call.Args[0]); ok && theProgram.baseFieldName(f) == "Header" && origin(base) == ssa.Value(nr.Params[2]) {
 							setCSeq = true
 						}
 					}
 				}
 			case "Session":
-				if f, _, ok := fieldLoad(cc.Args[2]); ok && f.Name() == "lsession" {
+				if f, _, ok := fieldLoad(cc.Args[2]); ok && theProgram.baseFieldName(f) == "lsession" {
 					setSess = true
 				}
 			}
@@ -432,7 +432,7 @@ func ruleStateWriters(c *Ctx) {
 				if good {
 					good = false
 					instrs(fn, func(i2 ssa.Instruction) {
-						if cc := callCommon(i2); cc != nil && cc.StaticCallee() != nil && cc.StaticCallee().Name() == "asTCPPusher" && dominatesInstr(i2, ins) {
+						if cc := callCommon(i2); cc != nil && cc.StaticCallee() != nil && baseFuncName(cc.StaticCallee()) == "asTCPPusher" && dominatesInstr(i2, ins) {
 							good = true
 						}
 					})
@@ -463,7 +463,7 @@ func ruleStateWriters(c *Ctx) {
 				s.Ready = true
 				return []ss{s}
 			}
-			if f.Name() == "StatusCode" {
+			if theProgram.baseFieldName(f) == "StatusCode" {
 				if k, ok := evalInt(sto.Val); ok && k >= 400 {
 					s.Err = true
 					return []ss{s}
@@ -536,7 +536,7 @@ func ruleHandlersGated(c *Ctx) {
 				return
 			}
 			for _, h := range handlers {
-				if cc.StaticCallee().Name() == h && cc.StaticCallee().Signature.Recv() != nil {
+				if baseFuncName(cc.StaticCallee()) == h && cc.StaticCallee().Signature.Recv() != nil {
 					c.Decide(s.Pre == 1, "gated:"+pk+"."+h, p.InstrPos(ins), "reached only after the state gate accepted", h+" is reachable without onPreprocess having returned true: the method-order gate (and the authentication it performs) is bypassed")
 				}
 			}
@@ -617,7 +617,7 @@ func ruleGateTable(c *Ctx) {
 							return (k == status) == (b.Op == token.EQL), true
 						}
 					}
-					if f.Name() == "Method" {
+					if theProgram.baseFieldName(f) == "Method" {
 						if k, ok := b.Y.(*ssa.Const); ok && k.Value != nil && k.Value.Kind() == constant.String {
 							return (constant.StringVal(k.Value) == m) == (b.Op == token.EQL), true
 						}
@@ -629,11 +629,11 @@ func ruleGateTable(c *Ctx) {
 				Transfer: func(s gateState, ins ssa.Instruction) []gateState {
 					if sto, ok := ins.(*ssa.Store); ok {
 						if f, base, ok := fieldAddr(sto.Addr); ok {
-							if origin(base) == ssa.Value(recv) && f.Name() != "user" && f.Name() != "nonce" {
+							if origin(base) == ssa.Value(recv) && theProgram.baseFieldName(f) != "user" && theProgram.baseFieldName(f) != "nonce" {
 								s.Stored = true
 								return []gateState{s}
 							}
-							if f.Name() == "StatusCode" {
+							if theProgram.baseFieldName(f) == "StatusCode" {
 								s.Code, _ = evalInt(sto.Val)
 								return []gateState{s}
 							}
@@ -645,7 +645,7 @@ func ruleGateTable(c *Ctx) {
 						}
 						return []gateState{s}
 					}
-					if cc := callCommon(ins); cc != nil && cc.StaticCallee() != nil && cc.StaticCallee().Name() == "Close" && len(cc.Args) > 0 && origin(cc.Args[0]) == ssa.Value(recv) {
+					if cc := callCommon(ins); cc != nil && cc.StaticCallee() != nil && baseFuncName(cc.StaticCallee()) == "Close" && len(cc.Args) > 0 && origin(cc.Args[0]) == ssa.Value(recv) {
 						// TEARDOWN closes the session: allowed only for TEARDOWN
 						if m != "TEARDOWN" {
 							s.Stored = true
@@ -791,7 +791,7 @@ func ruleTeardownReleases(c *Ctx) {
 	// the connection itself
 	closes := false
 	instrs(df, func(ins ssa.Instruction) {
-		if cc := callCommon(ins); cc != nil && cc.StaticCallee() != nil && cc.StaticCallee().Name() == "Close" && cc.StaticCallee().Signature.Recv() != nil && typeIs(cc.StaticCallee().Signature.Recv().Type(), modRel("service/rtsp"), "Session") {
+		if cc := callCommon(ins); cc != nil && cc.StaticCallee() != nil && baseFuncName(cc.StaticCallee()) == "Close" && cc.StaticCallee().Signature.Recv() != nil && typeIs(cc.StaticCallee().Signature.Recv().Type(), modRel("service/rtsp"), "Session") {
 			closes = true
 		}
 	})
